@@ -55,9 +55,11 @@ def menu(kind):
         m[9] = ([("ens", 0)], 0, "all", None)          # differs from m[4] only in the member number
         m[14] = ([("obs",), ("ens", 1)], 1, "leadtime", 0)
         m[15] = ([("obs",), ("ens", 0)], 1, "leadtime", 0)
+        m[12] = ("diagram", "timeseries", None, None)
     if kind == "plain":
         m[13] = ("diagram", "fss", None, None)
         m[6] = ("diagram", "droc", None, None)
+        m[12] = ("diagram", "timeseries", None, None)
     if kind == "nccdf":
         m[14] = ("diagram", "reliability", None, None)
         m[15] = ("diagram", "discrimination", None, None)
@@ -147,6 +149,13 @@ def input_hash(inputs):
     return h.hexdigest()
 
 
+def coords(data):
+    """the dataset's own coordinates as the Data object reports them"""
+    import numpy as np
+    return [np.array(data.times, float), np.array(data.leadtimes, float),
+            np.array([[l.id, l.lat, l.lon, l.elev] for l in data.locations], float)]
+
+
 def setup(ctx, rng, kind, tag):
     import verif.input
     ds = make_ds(rng, kind)
@@ -181,6 +190,7 @@ def run_history(ctx, fresh, spec, seq, men, kind, ds, shared=None):
         inputs = shared
         data = verif.data.Data(inputs[:2], clim=(inputs[2] if len(inputs) > 2 else None), obs_range=spec["opts"].get("obsrange"))
     h0 = input_hash(inputs)
+    c0 = coords(data)
     ledger = []
     ctx.count("histories")
     for pos, ri in enumerate(seq):
@@ -200,6 +210,12 @@ def run_history(ctx, fresh, spec, seq, men, kind, ds, shared=None):
                               % (men[rj], men[ri], kind), {"ds": ds, "kind": kind, "seq": list(seq), "opts": spec["opts"]})
                 return False
         ledger.append((ri, res, snap(res)))
+    ctx.count("coordinate_checks")
+    if not same(coords(data), c0):
+        ctx.violation("dataset-coordinates-modified|%s" % kind, "times / lead times / locations of the Data object changed during history %s:\nbefore %s\nafter  %s"
+                      % ([men[j] for j in seq], [x.tolist() for x in c0][:2], [x.tolist() for x in coords(data)][:2]),
+                      {"ds": ds, "kind": kind, "seq": list(seq), "opts": spec["opts"]})
+        return False
     ctx.count("input_hash_checks")
     if input_hash(inputs) != h0:
         ctx.violation("input-object-modified|%s" % kind, "the input objects' arrays changed during history %s" % [men[j] for j in seq],
